@@ -207,8 +207,59 @@ PROBES = [
 ]
 
 
+PROBES += [
+    # zero / empty values are values: presence and is-not-defined must not change once indexed
+    ("zero-valued-property",
+     [("z0.ics", ical([{"type": "VTODO", "lines": ["UID:z0", "SUMMARY:x", "PRIORITY:0", "PERCENT-COMPLETE:0"]}])),
+      ("z1.ics", ical([{"type": "VTODO", "lines": ["UID:z1", "SUMMARY:y"]}]))],
+     {"name": "VCALENDAR", "comps": [{"name": "VTODO", "props": [{"name": "PRIORITY"}]}]}),
+    ("zero-valued-property-not-defined",
+     [("z0.ics", ical([{"type": "VTODO", "lines": ["UID:z0", "SUMMARY:x", "PRIORITY:0", "X-EMPTY:"]}])),
+      ("z1.ics", ical([{"type": "VTODO", "lines": ["UID:z1", "SUMMARY:y"]}]))],
+     {"name": "VCALENDAR", "comps": [{"name": "VTODO", "props": [{"name": "X-EMPTY", "nd": True}]}]}),
+]
+# (probe, members, filter, default time zone of the query): a zone whose offset is zero on that day
+TZ_PROBES = [
+    ("tzid-at-offset-zero",
+     [("l.ics", ical([{"type": "VEVENT", "lines": ["UID:l", "SUMMARY:x", "DTSTART;TZID=Europe/London:20200310T100000",
+                                                   "DTEND;TZID=Europe/London:20200310T110000"]}])),
+      ("p.ics", ical([{"type": "VEVENT", "lines": ["UID:p", "SUMMARY:x", "DTSTART;TZID=Europe/Paris:20200310T100000",
+                                                   "DTEND;TZID=Europe/Paris:20200310T110000"]}]))],
+     {"name": "VCALENDAR", "comps": [{"name": "VEVENT", "tr": (0, 1)}]}, "America/New_York"),
+    ("tzid-at-offset-zero-2",
+     [("l.ics", ical([{"type": "VEVENT", "lines": ["UID:l", "SUMMARY:x", "DTSTART;TZID=Europe/Lisbon:20200310T130000"]}]))],
+     {"name": "VCALENDAR", "comps": [{"name": "VEVENT", "tr": (1, 2)}]}, "Asia/Tokyo"),
+]
+
+
 def probes(chk):
     """Deterministic replays of the recorded C10 findings (and of their repaired neighbours)."""
+    from zoneinfo import ZoneInfo
+    from xandikos import caldav
+    from xandikos.icalendar import CalendarFilter
+    for (kf, members, f, zone) in TZ_PROBES:
+        root = scratch_dir()
+        try:
+            store = make_store("bare-mem", None, root)
+            for n, d in members:
+                store.import_one(n, "text/calendar", [d])
+            el = ET.fromstring('<C:filter xmlns:C="%s">%s</C:filter>' % (NS, compf_xml(f)))
+            answers = []
+            for i in range(9):
+                try:
+                    flt = caldav.parse_filter(el, CalendarFilter(ZoneInfo(zone)))
+                    answers.append(sorted(n for (n, _f, _e) in store.iter_with_filter(flt)))
+                except Exception as e:
+                    answers.append({"error": type(e).__name__})
+            chk.case(("probe", kf))
+            if any(a != answers[0] for a in answers):
+                first_bad = next(i for i, a in enumerate(answers) if a != answers[0])
+                chk.violation("C10:history-dependent-answer:" + kf,
+                              f"{kf}: same query (default time zone {zone}) 9 times: {answers[0]} … from repetition {first_bad} on {answers[first_bad]}",
+                              {"level": "store", "members": {n: d.decode() for n, d in members}, "filter": compf_xml(f),
+                               "zone": zone, "answers": answers})
+        finally:
+            shutil.rmtree(root, ignore_errors=True)
     for (kf, members, f) in PROBES:
         root = scratch_dir()
         try:
